@@ -34,6 +34,7 @@ var (
 	fRaceBin = flag.String("racebin", "", "path of the -race build of this binary")
 	fVerif   = flag.String("verif", "/verif", "verif root")
 	fSeed    = flag.Int64("seed", 0, "seed (default VERIF_SEED or 1)")
+	fEvDir   = flag.String("evdir", "", "evidence directory override (selftest against mutated copies only)")
 )
 
 func main() {
@@ -323,7 +324,11 @@ func parent(p *props.Prop, cfg mon.Config) int {
 			known[f.Key] = f
 		}
 	}
-	replayDir := filepath.Join(verif, "evidence", "replays")
+	evDir := filepath.Join(verif, "evidence")
+	if *fEvDir != "" {
+		evDir = *fEvDir
+	}
+	replayDir := filepath.Join(evDir, "replays")
 	os.MkdirAll(replayDir, 0755)
 	old, _ := filepath.Glob(filepath.Join(replayDir, cfg.Prop+"-*.json"))
 	for _, o := range old {
@@ -375,7 +380,7 @@ func parent(p *props.Prop, cfg mon.Config) int {
 	}
 	extra["inconclusive_reasons"] = incon
 	extra["known_findings_seen"] = knownSeen
-	evPath := filepath.Join(verif, "evidence", cfg.Prop+".json")
+	evPath := filepath.Join(evDir, cfg.Prop+".json")
 	if err := mon.WriteEvidence(evPath, cfg, merged, p.Rule, p.Assumptions, extra, start, verdict, nviol); err != nil {
 		fmt.Fprintln(os.Stderr, "evidence:", err)
 		return 2
